@@ -594,6 +594,12 @@ impl<'a> Run<'a> {
     /// the fill mark is free, a live node / leaf, a stored root, or one of the slots the model says
     /// were lost in a crash; returns the number of orphan slots (neither free nor live)
     fn check_structure(&mut self, o: &J) -> Result<u64, String> {
+        let orphans = self.census()?;
+        Ok(orphans)
+    }
+
+    /// slot census of the tree column's value tables (drained): number of orphan slots
+    fn census(&mut self) -> Result<u64, String> {
         let d = self.db().verif_dump(0).map_err(|e| format!("dump: {e}"))?;
         let mut live: HashSet<(u8, u64)> = HashSet::new();
         for a in self.bind.id2addr.values().chain(self.bind.pads.values().flatten()) {
@@ -655,14 +661,6 @@ impl<'a> Run<'a> {
                     return Err(format!("tier {} slot {}: live node / root beyond the fill mark {}", t.tier, at.1, t.file_filled))
                 }
             }
-        }
-        let mut want = 0u64;
-        for l in o["leaked"].as_array().map(|a| a.as_slice()).unwrap_or(&[]) {
-            let id = l.as_u64().unwrap();
-            want += 1 + self.u.pad(id, o["kids"][(id - 1) as usize].as_array().unwrap().len()) as u64;
-        }
-        if !self.u.has_multipart() && orphans != want {
-            return Err(format!("{orphans} value-table slots are neither free nor part of a live tree, the specification accounts for {want}"))
         }
         Ok(orphans)
     }
@@ -1121,4 +1119,451 @@ pub fn cmd_scenario(args: &HashMap<String, String>) -> i32 {
     let _ = std::fs::remove_dir_all(&dir);
     // threads of a wedged scenario must not keep the process alive
     std::process::exit(0);
+}
+
+// ---------------------------------------------------------------------------
+// implementation -> specification: random driver whose recorded history TLC validates
+// against spec/TraceMultiTree.tla
+
+struct Mirror {
+    /// client view after every accepted commit: key -> (count, root kids)
+    ideal: HashMap<u64, (u64, Vec<u64>)>,
+    /// after every processed commit
+    applied: HashMap<u64, (u64, Vec<u64>)>,
+    node_kids: HashMap<u64, Vec<u64>>,
+    /// queued commits: (model cid, op)
+    queue: Vec<(u64, MOp)>,
+    locked: HashMap<u64, Vec<u64>>,
+    next_id: u64,
+    next_cid: u64,
+}
+
+#[derive(Clone)]
+enum MOp {
+    Ins(u64, Vec<u64>),
+    Deref(u64),
+    Ref(u64),
+    None,
+}
+
+impl Mirror {
+    fn reach(&self, kids: &[u64], out: &mut HashSet<u64>) {
+        for k in kids {
+            if out.insert(*k) {
+                if let Some(ks) = self.node_kids.get(k) {
+                    let ks = ks.clone();
+                    self.reach(&ks, out);
+                }
+            }
+        }
+    }
+    /// the root a reader (or a dereference) finds under `k`: commit overlay (latest queued insertion)
+    /// before the stored one
+    fn visible_root(&self, k: u64) -> Option<Vec<u64>> {
+        for (_c, op) in self.queue.iter().rev() {
+            if let MOp::Ins(kk, kids) = op {
+                if *kk == k {
+                    return Some(kids.clone())
+                }
+            }
+        }
+        self.applied.get(&k).map(|e| e.1.clone())
+    }
+    fn referable(&self) -> Vec<u64> {
+        let mut s = HashSet::new();
+        for (_k, (_rc, kids)) in self.ideal.iter() {
+            self.reach(kids, &mut s);
+        }
+        for (_k, kids) in self.locked.iter() {
+            self.reach(kids, &mut s);
+        }
+        let mut v: Vec<u64> = s.into_iter().collect();
+        v.sort();
+        v
+    }
+    fn apply(map: &mut HashMap<u64, (u64, Vec<u64>)>, op: &MOp, rc_roots: bool) {
+        match op {
+            MOp::Ins(k, kids) => {
+                if let Some(e) = map.get_mut(k) {
+                    if rc_roots {
+                        e.0 += 1;
+                    } else {
+                        *e = (1, kids.clone());
+                    }
+                } else {
+                    map.insert(*k, (1, kids.clone()));
+                }
+            },
+            MOp::Deref(k) => {
+                let gone = match map.get_mut(k) {
+                    Some(e) if e.0 > 1 => {
+                        e.0 -= 1;
+                        false
+                    },
+                    Some(_) => true,
+                    None => false,
+                };
+                if gone {
+                    map.remove(k);
+                }
+            },
+            MOp::Ref(k) =>
+                if let Some(e) = map.get_mut(k) {
+                    e.0 += 1;
+                },
+            MOp::None => {},
+        }
+    }
+}
+
+fn rand_shape(rng: &mut rand::rngs::SmallRng, refs: &[u64], depth: u32, next: &mut u64, node_kids: &mut HashMap<u64, Vec<u64>>, budget: &mut i32) -> (J, Vec<u64>) {
+    use rand::Rng;
+    let n = if depth == 0 { rng.gen_range(0..5) } else { rng.gen_range(0..3) };
+    let mut sh = Vec::new();
+    let mut ids = Vec::new();
+    for _ in 0..n {
+        if *budget <= 0 {
+            break
+        }
+        if !refs.is_empty() && rng.gen_range(0..100) < 40 {
+            let r = refs[rng.gen_range(0..refs.len())];
+            sh.push(json!({"new": false, "ref": r}));
+            ids.push(r);
+        } else {
+            let id = *next;
+            *next += 1;
+            *budget -= 1;
+            let (sub, sub_ids) = if depth < 3 && rng.gen_range(0..100) < 45 {
+                rand_shape(rng, refs, depth + 1, next, node_kids, budget)
+            } else {
+                (json!([]), vec![])
+            };
+            node_kids.insert(id, sub_ids);
+            sh.push(json!({"new": true, "kids": sub}));
+            ids.push(id);
+        }
+    }
+    (J::Array(sh), ids)
+}
+
+/// `pdbh mtree-record --out F --steps N --seed S --variant V [--nt N] [--maxids N] [--crash PCT]`
+pub fn cmd_record(args: &HashMap<String, String>) -> i32 {
+    use rand::{Rng, SeedableRng};
+    use std::io::Write;
+    let steps: usize = args.get("steps").and_then(|s| s.parse().ok()).unwrap_or(300);
+    let seed: u64 = args.get("seed").and_then(|s| s.parse().ok()).unwrap_or(1);
+    let nt: u64 = args.get("nt").and_then(|s| s.parse().ok()).unwrap_or(5);
+    let nx: u64 = 2;
+    let nv: u64 = 3;
+    let maxids: u64 = args.get("maxids").and_then(|s| s.parse().ok()).unwrap_or(300);
+    let crash_pct: u32 = args.get("crash").and_then(|s| s.parse().ok()).unwrap_or(0);
+    let v = Variant::parse(args.get("variant").map(|s| s.as_str()).unwrap_or(""));
+    let rc_roots = v.rc;
+    let u = Univ { seed: mix(seed, 99), v: Variant { pads: false, ..v.clone() } };
+    let root = scratch_root();
+    let dir = fresh_dir(&root, "mtrec");
+    let mut run = Run { u: &u, dir: dir.clone(), db: None, bind: Binding::default(), readers: HashMap::new(), kept: HashMap::new(), cid_off: 0, last_cid: 0, crashes: 0,
+                        events: Arc::new(Mutex::new(Vec::new())), gate: Arc::new(Mutex::new(None)), worker: None };
+    run.install_sink();
+    let mut rng = rand::rngs::SmallRng::seed_from_u64(seed ^ 0x51ed);
+    let mut m = Mirror { ideal: HashMap::new(), applied: HashMap::new(), node_kids: HashMap::new(), queue: Vec::new(), locked: HashMap::new(), next_id: 1, next_cid: 1 };
+    let mut out: Vec<J> = Vec::new();
+    let mut problems: Vec<String> = Vec::new();
+    // root data decoding: every commit id that inserted a root
+    let mut root_cids: Vec<(u64, u64)> = Vec::new(); // (key, commit id)
+    if let Err(e) = run.open() {
+        println!("{}", json!({"events": 0, "problems": [e]}));
+        return 1
+    }
+    let mut ncrash = 0;
+    let mut nrestart = 0;
+    let mut ndefer = 0;
+    let mut nshared = 0;
+    let project = |run: &mut Run, m: &Mirror, root_cids: &Vec<(u64, u64)>| -> Result<J, String> {
+        let db = run.db.clone().unwrap();
+        let mut vis = Vec::new();
+        let mut nodes: Vec<J> = Vec::new();
+        let mut seen: HashSet<u64> = HashSet::new();
+        for k in 1..=nt {
+            let key = u.tkey(k);
+            let bind = &run.bind;
+            let r = with_reader(&db, &key, |src| -> Result<J, String> {
+                let s = match src {
+                    None => return Ok(json!({"live": false, "data": 0, "kids": []})),
+                    Some(s) => s,
+                };
+                let (data, ch) = match s.root()? {
+                    None => return Ok(json!({"live": false, "data": 0, "kids": []})),
+                    Some(x) => x,
+                };
+                // (root data of different commits can coincide when it is very short: the latest insertion under
+                // THIS key that supplied these bytes)
+                let cid = root_cids.iter().rev().find(|c| c.0 == k && u.root_data(c.1) == data).map(|c| c.1 as i64).unwrap_or(-1);
+                let mut kids = Vec::new();
+                let mut stack: Vec<u64> = Vec::new();
+                for a in ch.iter() {
+                    let id = bind.addr2id.get(a).copied().unwrap_or(0);
+                    kids.push(id);
+                    stack.push(*a);
+                }
+                while let Some(a) = stack.pop() {
+                    let id = bind.addr2id.get(&a).copied().unwrap_or(0);
+                    if id == 0 || !seen.insert(id) {
+                        continue
+                    }
+                    match s.node(a)? {
+                        None => nodes.push(json!({"id": id, "kids": [-1]})),
+                        Some((d, c)) => {
+                            let ok = d == u.node_data(id);
+                            let ks: Vec<i64> = c.iter().map(|x| bind.addr2id.get(x).copied().unwrap_or(0) as i64).collect();
+                            nodes.push(json!({"id": if ok { id as i64 } else { -(id as i64) }, "kids": ks}));
+                            stack.extend(c.iter());
+                        },
+                    }
+                }
+                Ok(json!({"live": true, "data": cid, "kids": kids}))
+            })?;
+            vis.push(r?);
+        }
+        let mut xs = Vec::new();
+        for x in 1..=nx {
+            let got = db.get(1, &u.xkey(x)).map_err(|e| e.to_string())?;
+            let v = match got {
+                None => 0,
+                Some(b) => (1..=nv).find(|v| u.xval(*v) == b).map(|v| v as i64).unwrap_or(-1),
+            };
+            xs.push(v);
+        }
+        let entries = db.get_num_column_value_entries(0).map(|n| n as i64).unwrap_or(-1);
+        let _ = m;
+        Ok(json!({"e": "Obs", "vis": vis, "nodes": nodes, "x": xs, "entries": entries}))
+    };
+    let mut i = 0;
+    while i < steps && problems.is_empty() {
+        i += 1;
+        let r = rng.gen_range(0..100u32);
+        let res: Result<(), String> = (|| {
+            if r < 34 {
+                // a transaction: tree operation (+ sometimes a plain write)
+                let pending_deref: HashSet<u64> = m.queue.iter().filter_map(|(_, o)| if let MOp::Deref(k) = o { Some(*k) } else { None }).collect();
+                let pending_x = m.queue.iter().any(|(_, o)| matches!(o, MOp::Deref(_)));
+                let free_keys: Vec<u64> = (1..=nt).filter(|k| !m.ideal.contains_key(k) && !m.locked.contains_key(k) && !pending_deref.contains(k) && !run.kept.contains_key(k)).collect();
+                // (no second tree operation on a key whose dereference is still queued: a deferral could
+                // reorder them, the known finding F3)
+                let live_keys: Vec<u64> = {
+                    let mut v: Vec<u64> = m.ideal.keys().copied().filter(|k| !pending_deref.contains(k)).collect();
+                    v.sort();
+                    v
+                };
+                let what = rng.gen_range(0..100u32);
+                let cid = m.next_cid;
+                let (tree, sh, op): (J, J, MOp) = if !free_keys.is_empty() && m.next_id + 12 < maxids && (what < 50 || live_keys.is_empty()) {
+                    let k = free_keys[rng.gen_range(0..free_keys.len())];
+                    let refs = if u.v.ao { m.referable() } else { m.referable() };
+                    let first = m.next_id;
+                    let mut budget = 10;
+                    let (sh, kids) = rand_shape(&mut rng, &refs, 0, &mut m.next_id, &mut m.node_kids, &mut budget);
+                    if sh.to_string().contains("\"ref\"") {
+                        nshared += 1;
+                    }
+                    let new: Vec<J> = if m.next_id > first { vec![json!({"id": first})] } else { vec![] };
+                    (json!({"t": "ins", "k": k, "new": new}), sh, MOp::Ins(k, kids))
+                } else if !live_keys.is_empty() && what < 85 && !u.v.ao {
+                    let k = live_keys[rng.gen_range(0..live_keys.len())];
+                    (json!({"t": "deref", "k": k}), json!([]), MOp::Deref(k))
+                } else if !live_keys.is_empty() && rc_roots && !u.v.ao && what < 93 {
+                    let k = live_keys[rng.gen_range(0..live_keys.len())];
+                    (json!({"t": "ref", "k": k}), json!([]), MOp::Ref(k))
+                } else {
+                    (json!({"t": "none"}), json!([]), MOp::None)
+                };
+                // a plain write rides along unless a queued dereference could be deferred past it (F3)
+                let with_set = !pending_x && !matches!(op, MOp::Deref(_)) && (matches!(op, MOp::None) || rng.gen_range(0..100) < 30);
+                let set = if with_set { json!({"x": rng.gen_range(1..=nx), "v": rng.gen_range(1..=nv)}) } else { json!({"x": 0, "v": 0}) };
+                if matches!(op, MOp::None) && !with_set {
+                    return Ok(())
+                }
+                let st = json!({"a": "Commit", "tx": {"cid": cid, "tree": tree, "set": set}, "sh": sh});
+                run.step(&st)?;
+                m.next_cid += 1;
+                if let MOp::Ins(k, _) = &op {
+                    root_cids.push((*k, cid));
+                }
+                Mirror::apply(&mut m.ideal, &op, rc_roots);
+                m.queue.push((cid, op.clone()));
+                let mut tj = st["tx"]["tree"].clone();
+                tj["sh"] = st["sh"].clone();
+                out.push(json!({"e": "Commit", "cid": cid, "tree": tj, "set": st["tx"]["set"]}));
+                // learn the addresses of the new nodes: the new tree must read back as supplied
+                if let MOp::Ins(k, kids) = &op {
+                    let n = m.next_id as usize;
+                    let kids_arr: Vec<J> = (1..n as u64).map(|id| json!(m.node_kids.get(&id).cloned().unwrap_or_default())).collect();
+                    let rc_arr: Vec<J> = (1..n).map(|_| json!(1)).collect();
+                    let want = json!({"rc": 1, "data": cid, "kids": kids});
+                    let db = run.db.clone().unwrap();
+                    let bind = &mut run.bind;
+                    let mut seen = HashSet::new();
+                    let r = with_reader(&db, &u.tkey(*k), |src| match src {
+                        None => Err(format!("tree {k}: absent right after its insertion was accepted")),
+                        Some(s) => compare_tree(&u, s, &want, &J::Array(kids_arr.clone()), &J::Array(rc_arr.clone()), bind, &mut seen, &format!("tree {k} (just inserted)")),
+                    })?;
+                    r?;
+                }
+                Ok(())
+            } else if r < 56 {
+                // the log worker's step
+                if m.queue.is_empty() {
+                    return Ok(())
+                }
+                let db = run.db.clone().unwrap();
+                let (r, ev) = run.with_events(|| catch(|| db.process_commits()));
+                r.map_err(|p| format!("process_commits panicked: {p}"))?.map_err(|e| format!("process_commits: {e}"))?;
+                let pops: Vec<u64> = ev.iter().filter(|e| e.0 == "Pop").map(|e| e.1[0]).collect();
+                let defers: Vec<Vec<u64>> = ev.iter().filter(|e| e.0 == "Defer").map(|e| e.1.clone()).collect();
+                if pops.len() != 1 {
+                    return Err(format!("process_commits took {} commits", pops.len()))
+                }
+                let cid = pops[0] + run.cid_off;
+                let (qcid, op) = m.queue.remove(0);
+                if qcid != cid {
+                    return Err(format!("log worker took commit {cid}, the oldest queued commit is {qcid}"))
+                }
+                if let Some(d) = defers.first() {
+                    if d[1] == d[0] {
+                        m.queue.insert(0, (qcid, op));
+                        out.push(json!({"e": "Spin", "cid": cid}));
+                    } else {
+                        let ncid = d[1] + run.cid_off;
+                        run.last_cid = run.last_cid.max(ncid);
+                        m.next_cid = ncid + 1;
+                        m.queue.push((ncid, op));
+                        ndefer += 1;
+                        out.push(json!({"e": "Defer", "cid": cid, "ncid": ncid}));
+                    }
+                } else {
+                    Mirror::apply(&mut m.applied, &op, rc_roots);
+                    out.push(json!({"e": "Process", "cid": cid}));
+                }
+                Ok(())
+            } else if r < 70 {
+                let w = ["flush", "enact", "enact", "clean"][rng.gen_range(0..4)];
+                run.step(&json!({"a": "Pipe", "w": w}))?;
+                out.push(json!({"e": "Pipe"}));
+                Ok(())
+            } else if r < 80 {
+                // a reader locks a visible tree, or unlocks
+                let lockable: Vec<u64> = (1..=nt).filter(|k| !m.locked.contains_key(k)).collect();
+                if !m.locked.is_empty() && (rng.gen_range(0..100) < 50 || lockable.is_empty()) {
+                    let ks: Vec<u64> = { let mut v: Vec<u64> = m.locked.keys().copied().collect(); v.sort(); v };
+                    let k = ks[rng.gen_range(0..ks.len())];
+                    run.step(&json!({"a": "Unlock", "k": k}))?;
+                    m.locked.remove(&k);
+                    out.push(json!({"e": "Unlock", "k": k}));
+                } else if !lockable.is_empty() {
+                    let k = lockable[rng.gen_range(0..lockable.len())];
+                    // only trees whose root the client can see (overlay or applied)
+                    let kids = match m.visible_root(k) {
+                        Some(kids) => kids,
+                        None => return Ok(()),
+                    };
+                    run.step(&json!({"a": "Lock", "k": k}))?;
+                    m.locked.insert(k, kids);
+                    out.push(json!({"e": "Lock", "k": k}));
+                }
+                Ok(())
+            } else if r < 84 {
+                if m.queue.is_empty() && m.locked.is_empty() {
+                    run.step(&json!({"a": "Restart"}))?;
+                    nrestart += 1;
+                    out.push(json!({"e": "Restart"}));
+                }
+                Ok(())
+            } else if r < 84 + crash_pct.min(8) {
+                if m.locked.is_empty() {
+                    run.step(&json!({"a": "Crash"}))?;
+                    ncrash += 1;
+                    m.queue.clear();
+                    m.ideal = m.applied.clone();
+                    out.push(json!({"e": "Crash"}));
+                }
+                Ok(())
+            } else if r < 96 {
+                let free: Vec<u64> = (1..=nt).filter(|k| !m.ideal.contains_key(k) && m.visible_root(*k).is_none() && !m.locked.contains_key(k)).collect();
+                if let Some(k) = free.first() {
+                    let why = ["wide", "deref_missing", "plain_op", "ins_then_bad"][rng.gen_range(0..4)];
+                    if !(u.v.ao && why == "deref_missing") {
+                        run.step(&json!({"a": "Reject", "why": why, "k": k, "n": 256 + rng.gen_range(0..60)}))?;
+                        out.push(json!({"e": "Reject"}));
+                    }
+                }
+                Ok(())
+            } else {
+                // drained: stored node counts and slot census
+                if m.queue.is_empty() && m.locked.is_empty() && !u.v.ao {
+                    run.drain()?;
+                    let d = run.db().verif_dump(0).map_err(|e| format!("dump: {e}"))?;
+                    let mut counts: HashMap<u64, u64> = HashMap::new();
+                    for (_bits, entries) in d.ref_counts.iter() {
+                        for (a, c) in entries {
+                            counts.entry(*a).or_insert(*c);
+                        }
+                    }
+                    let mut rcj = Vec::new();
+                    let mut ids: Vec<(&u64, &u64)> = run.bind.id2addr.iter().collect();
+                    ids.sort();
+                    for (id, a) in ids {
+                        rcj.push(json!({"id": id, "count": counts.get(a).copied().unwrap_or(1)}));
+                    }
+                    let stray = counts.keys().filter(|a| !run.bind.addr2id.contains_key(a)).count();
+                    // nodes the model has freed are still bound here: the census is done with the live ones only
+                    let orphans = if u.has_multipart() { -1 } else { run.census()? as i64 };
+                    out.push(json!({"e": "Counts", "rc": rcj, "stray": stray, "orphans": orphans}));
+                }
+                Ok(())
+            }
+        })();
+        if let Err(e) = res {
+            problems.push(e);
+            break
+        }
+        // nodes that are no longer reachable from a stored root or from a queued insertion have been
+        // freed (their addresses may be handed out again): forget their addresses
+        {
+            let mut live: HashSet<u64> = HashSet::new();
+            for (_k, (_rc, kids)) in m.applied.iter() {
+                m.reach(kids, &mut live);
+            }
+            for (_c, op) in m.queue.iter() {
+                if let MOp::Ins(_k, kids) = op {
+                    m.reach(kids, &mut live);
+                }
+            }
+            let bound: Vec<u64> = run.bind.id2addr.keys().copied().collect();
+            for id in bound {
+                if !live.contains(&id) {
+                    run.bind.forget(id);
+                }
+            }
+        }
+        match project(&mut run, &m, &root_cids) {
+            Ok(o) => {
+                out.push(o);
+            },
+            Err(e) => problems.push(format!("read: {e}")),
+        }
+    }
+    for (_, h) in run.readers.drain().chain(run.kept.drain()) {
+        h.unlock();
+    }
+    parity_db::verif::set_sink(None);
+    drop(run.db.take());
+    let _ = std::fs::remove_dir_all(&run.dir);
+    let _ = std::fs::remove_dir_all(&dir);
+    let mut f = std::io::BufWriter::new(std::fs::File::create(&args["out"]).unwrap());
+    for e in &out {
+        writeln!(f, "{e}").unwrap();
+    }
+    println!("{}", json!({"events": out.len(), "problems": problems, "crashes": ncrash, "restarts": nrestart, "defers": ndefer,
+                          "trees_with_shared_nodes": nshared, "ids": m.next_id - 1, "commits": m.next_cid - 1, "nt": nt}));
+    0
 }
